@@ -19,7 +19,8 @@ RULE = ("Hypothesis rule-based state machine over a simulated node on a generate
         "that un-spends and re-spends outputs, delivered through the relay path or set_coinstate; race_submit: while a valid "
         "transaction is being admitted another thread publishes a head that spends its input (schedule injection inside the "
         "admission's validation); ibd_rollback: bulk-download blocks are adopted unvalidated, a transaction spending their output "
-        "is admitted, then an invalid block makes the node fall back to its last validated state. Oracle after EVERY step against "
+        "is admitted, then an invalid block makes the node fall back to its last validated state; ibd_partial: announced blocks "
+        "(the first spending a pooled transaction's input) are only partly served before the connection is lost. Oracle after EVERY step against "
         "the reference ledger at the reference head: each pooled transaction is reference-valid there, no two share a reference; "
         "a transaction failing validity or conflicting is not admitted; after a head change the pool == previous pool filtered by "
         "reference validity, order preserved. non-trivial = machine with >= 1 eviction caused by a fork switch and >= 1 refused "
@@ -417,6 +418,74 @@ class Exec:
                     self.fail("eviction", "valid-transaction-evicted-on-rollback", "after falling back to the last validated state the pool lost still-valid transactions or changed order")
             self.pool = want
             self.invariant("after a rollback to the last validated state")
+        elif k == "ibd_partial":
+            # a peer ANNOUNCES several new blocks (the first one spends an output a pooled transaction uses), the node asks
+            # for them, but only some are served before the connection is lost: the head moved, so the pool must be clean
+            _, n_blocks, n_served, a, miner = op
+            if not self.wire.connected:
+                return
+            tip = self.head()
+            built = []
+            for j in range(2 + n_blocks % 2):
+                txs = []
+                if j == 0 and self.pool:
+                    t = self.pool[a % len(self.pool)]
+                    h, i, _s = t.ins[0]
+                    o = tip.utxo.get((h, i))
+                    kk = next((kk for kk in KEYS if o and kk.pub == o[1]), None)
+                    if kk is not None:
+                        c = R.RTx([(h, i, ("se",))], [(o[0], KEYS[(miner + 2) % len(KEYS)].pub)])
+                        c.ins = [(h, i, ("sig", kk.sign(R.signing_message(c))))]
+                        if c.touch().id() != t.id():
+                            txs.append(c)
+                self.n += 1
+                label = "j%d" % self.n
+                plabel = next(l for l, blk in self.world.blocks.items() if blk.id() == tip.id)
+                names = []
+                for q, t in enumerate(txs):
+                    self.world.txs["%s.t%d" % (label, q)] = t
+                    names.append("%s.t%d" % (label, q))
+                blk = self.world.build_block({"label": label, "parent": plabel, "miner": (miner + j) % len(KEYS), "dt": self.world.safe_dt(tip, 35), "txs": [{"copy": n} for n in names]})
+                if blk is None or self.led.validate(blk, blk.ts):
+                    return
+                self.world.accept(label, blk)
+                built.append(blk)
+                tip = self.led.nodes[blk.id()]
+            self.simnet.CLOCK.now = max(self.simnet.CLOCK.now, built[-1].ts)
+            n0 = len(self.wire.received)
+            self.wire.send(M.InventoryMessage([M.InventoryItem(M.DATA_BLOCK, x.id()) for x in built]))
+            self.wire.deliver()
+            asks = {m.hash: h for (h, m) in self.wire.received[n0:] if isinstance(m, M.GetDataMessage)}
+            served = 0
+            for x in built[:1 + n_served % len(built)]:
+                if x.id() not in asks or served >= len(built) - 1:
+                    break
+                self.wire.send(M.DataMessage(M.DATA_BLOCK, self.b.to_sk_block(x)), in_response_to=asks[x.id()].id)
+                self.wire.deliver()
+                if x.id() in self.node.cm.coinstate.block_by_hash:
+                    self.acc.add(x)
+                    served += 1
+            if a % 2:
+                self.wire.sock.close()                   # the connection is lost in the middle of the batch
+                self.net.drain(None, only=[self.node])
+                self.wire = self.simnet.Wire(self.net, self.node, host="10.0.2.%d" % (self.n % 200 + 2))
+                self.wire.greet()
+            self.flags["partial_downloads"] = self.flags.get("partial_downloads", 0) + 1
+            if self.node.cm.coinstate.current_chain_hash != self.head().id:
+                self.fail("harness", "harness:head-mismatch", "after a partial bulk download the node head differs from the reference head")
+                return
+            utxo = self.head().utxo
+            want = [t for t in self.pool if tx_valid(t, utxo) is None]
+            got = [t.id() for t in self.node_pool()]
+            if got != [t.id() for t in want]:
+                gs, ws = set(got), {t.id() for t in want}
+                if gs - ws:
+                    self.fail("eviction", "invalid-transaction-kept-after-partial-download", "after %d of %d announced blocks were downloaded (head moved) %d transaction(s) that are no longer valid stayed in the pool" % (
+                        served, len(built), len(gs - ws)))
+                else:
+                    self.fail("eviction", "valid-transaction-evicted-on-head-change", "after a partial bulk download still-valid transactions were evicted or reordered")
+            self.pool = want
+            self.invariant("after a partial bulk download")
         elif k == "extend":
             _, mask, conflict, via, miner = op
             take = [t for j, t in enumerate(self.pool) if (mask >> j) & 1]
@@ -564,6 +633,10 @@ class Machine(RuleBasedStateMachine):
     def race_submit(self, a, b, c, miner):
         self.do(["race_submit", a, b, c, miner])
 
+    @rule(n=st.integers(0, 1), served=st.integers(0, 2), a=st.integers(0, 1000), miner=st.integers(0, 7))
+    def ibd_partial(self, n, served, a, miner):
+        self.do(["ibd_partial", n, served, a, miner])
+
     @rule(n=st.integers(0, 1), a=st.integers(0, 1000), miner=st.integers(0, 7))
     def ibd_rollback(self, n, a, miner):
         self.do(["ibd_rollback", n, a, miner])
@@ -610,7 +683,7 @@ def run(shard, tier, seed):
     res = Result()
     Machine.res = res
     Machine.found = {}
-    n = 12 if tier == "quick" else 400
+    n = 24 if tier == "quick" else 400
     steps = 30 if tier == "quick" else 50
     run_state_machine_as_test(
         hypothesis.seed(env.subseed(seed, ID, shard["i"]))(Machine),
